@@ -82,6 +82,9 @@ def _cases(tier, rng):
         yield {"dag": d, "rewrites": [rng.choice(("nest", "nest-all", "copy", "simplify", "scope")), "update-defaults",
                                       rng.choice(("copy", "pickle", "nest", "join", "scope-and-remove", "update_renames"))],
                "seed": rng.randrange(10**6), "mutate": None, "omit_defaults": True}
+        yield {"dag": d, "rewrites": [rng.choice(("pickle", "copy", "pickle", "join")), "update-defaults-fn"]
+               + ([rng.choice(("copy", "pickle"))] if rng.random() < 0.4 else []),
+               "seed": rng.randrange(10**6), "mutate": None, "omit_defaults": True}
     # larger pipelines for the rewrites that combine functions (several combinable groups need >= 5 functions)
     for _ in range(n // 2):
         d = dag.gen_dag(rng, rng.randint(4, 6), allow_multi=rng.random() < 0.3, allow_nullary=False)
@@ -113,7 +116,7 @@ def apply_rewrite(name, p, d, names, rng):
         d2 = _other(rng, f"_o{rng.randrange(10**6)}")
         p2 = dag.build(d2)
         return [p.join(p2) if name == "join" else (p | p2)], names
-    if name == "update-defaults":
+    if name in ("update-defaults", "update-defaults-fn"):
         # in place, on the pipeline as it is now: every root argument that has a default gets a new one.  The description
         # `d` of what the pipeline computes is updated with it (every function that takes the argument gets the default).
         cur_defaults = dict(p.defaults)
@@ -127,7 +130,13 @@ def apply_rewrite(name, p, d, names, rng):
                 upd[cur_name] = f"UPD_{orig}"
         if not upd:
             raise NotApplicable
-        p.update_defaults(upd)
+        if name == "update-defaults":
+            p.update_defaults(upd)
+        else:  # the same update made function by function (a pipeline follows what is done to its functions)
+            for f in p.functions:
+                mine = {k: v for k, v in upd.items() if k in f.parameters and k not in f.bound}
+                if mine:
+                    f.update_defaults(mine)
         for cur_name, val in upd.items():
             orig = inv.get(cur_name, cur_name)
             for f in d["funcs"]:
@@ -337,7 +346,7 @@ def _check(case):
     if not applied:
         return []
     if omit:
-        if "update-defaults" not in applied:
+        if "update-defaults" not in applied and "update-defaults-fn" not in applied:
             return []
         want = _reference(d, True)  # (with the defaults as updated on the way)
         got = _eval_all(pipes, d, names, omit_defaults=True)
@@ -436,7 +445,9 @@ def _axis_cases(tier, rng):
         if not roots:
             continue
         yield {"dag": d, "param": rng.choice(roots), "n": rng.choice((1, 2, 3)),
-               "before": rng.choice((None, None, "update_renames", "update_scope"))}
+               "before": rng.choice((None, None, "update_renames", "update_scope")),
+               # the lifted pipeline is itself a pipeline that can be rewritten: it must still lift pointwise afterwards
+               "after": rng.choice((None, None, "nest-all", "nest-all", "copy", "pickle"))}
 
 
 def _check_axis(case):
@@ -453,6 +464,22 @@ def _check_axis(case):
         p.add_mapspec_axis(cur, axis="k")
     except Exception as e:  # noqa: BLE001
         return [f"add_mapspec_axis raised {type(e).__name__}: {str(e)[:150]}"]
+    after = case.get("after")
+    if after and not (after == "nest-all" and (len(d["funcs"]) < 2 or case.get("before") == "update_scope")):
+        try:
+            if after == "nest-all":
+                p.nest_funcs("*")
+            elif after == "copy":
+                p = p.copy()
+            else:
+                import cloudpickle
+                p = cloudpickle.loads(cloudpickle.dumps(p))
+        except Exception as e:  # noqa: BLE001
+            # (stated refusals: several leaves, conflicting defaults, functions with and without a MapSpec in one nest)
+            if not any(m in str(e) for m in ("should have only one leaf node", "Inconsistent default values", "multiple leaf",
+                                             "Cannot combine a mix of None and MapSpec")):
+                return [f"{after} after add_mapspec_axis raised {type(e).__name__}: {str(e)[:150]}"]
+            after = None
     dflt = dag.shared_defaults(d)
     roots = sorted({q for f in d["funcs"] for q in f["params"] if q in dag.ROOTS})
     values = [f"{prm}{i}" for i in range(n)]
@@ -467,6 +494,8 @@ def _check_axis(case):
     for o in dag.all_outputs(d):
         need = dag.needed_roots(d, o, set())
         depends = prm in need
+        if o not in res:
+            continue  # (an output inside a nest is no longer an output of the pipeline)
         got = progs.to_nested(res[o].output)
         if depends:
             if not isinstance(got, list) or len(got) != n:
